@@ -39,7 +39,9 @@ def rand_rot_args(rng, form, scalar, n):
     """native arguments for a rotate_* form and the equivalent quaternion(s)"""
     m = 1 if scalar else n
     degrees = bool(rng.random() < 0.5)
-    op = {"form": form, "scalar": scalar, "degrees": degrees}
+    # the container the caller hands the numbers over in (the documentation accepts any array_like; a length-1
+    # ndarray is vector input exactly like a length-1 list)
+    op = {"form": form, "scalar": scalar, "degrees": degrees, "container": str(rng.choice(["list", "ndarray", "tuple"]))}
     if form in ("rotate", "matrix", "mrp", "quat", "rotvec"):
         rot = R.random(m, random_state=int(rng.integers(2**31)))
         if rng.random() < 0.2:
@@ -102,7 +104,7 @@ def gen_op(rng, L, kind=None):
     start = "auto" if rng.random() < 0.35 else int(rng.integers(-L - 3, L + 4))
     if kind == "move":
         d = rng.normal(size=3) if scalar else rng.normal(size=(n, 3))
-        return {"op": "move", "disp": d.tolist(), "start": start}
+        return {"op": "move", "disp": d.tolist(), "start": start, "container": str(rng.choice(["list", "ndarray", "tuple"]))}
     if kind == "rot":
         form = str(rng.choice(FORMS))
         op = rand_rot_args(rng, form, scalar, n)
@@ -169,10 +171,23 @@ BAD = [
 
 
 # ------------------------------------------------------------------ applying
+def _as_container(op, value, default="ndarray"):
+    c = op.get("container", default)
+    if isinstance(value, (int, float)):
+        return value
+    if c == "ndarray":
+        return np.array(value, dtype=float)
+    if c == "tuple":
+        def tup(v):
+            return tuple(tup(x) for x in v) if isinstance(v, (list, tuple, np.ndarray)) else float(v)
+        return tup(value)
+    return np.array(value, dtype=float).tolist()
+
+
 def apply_lib(obj, op):
     k = op["op"]
     if k == "move":
-        obj.move(np.array(op["disp"]), start=op["start"])
+        obj.move(_as_container(op, op["disp"]), start=op["start"])
     elif k == "rot":
         a, st, f = op["anchor"], op["start"], op["form"]
         if a is not None and a != 0:
@@ -180,18 +195,18 @@ def apply_lib(obj, op):
         if f == "rotate":
             obj.rotate(R.from_quat(np.array(op["quat"])), anchor=a, start=st)
         elif f == "angax":
-            obj.rotate_from_angax(op["angle"], op["axis"], anchor=a, start=st, degrees=op["degrees"])
+            obj.rotate_from_angax(_as_container(op, op["angle"], "list"), op["axis"], anchor=a, start=st, degrees=op["degrees"])
         elif f == "rotvec":
-            obj.rotate_from_rotvec(R.from_quat(np.array(op["quat"])).as_rotvec(degrees=op["degrees"]), anchor=a,
+            obj.rotate_from_rotvec(_as_container(op, R.from_quat(np.array(op["quat"])).as_rotvec(degrees=op["degrees"])), anchor=a,
                                    start=st, degrees=op["degrees"])
         elif f in ("euler1", "euler3"):
-            obj.rotate_from_euler(op["angle"], op["seq"], anchor=a, start=st, degrees=op["degrees"])
+            obj.rotate_from_euler(_as_container(op, op["angle"], "list"), op["seq"], anchor=a, start=st, degrees=op["degrees"])
         elif f == "matrix":
-            obj.rotate_from_matrix(R.from_quat(np.array(op["quat"])).as_matrix(), anchor=a, start=st)
+            obj.rotate_from_matrix(_as_container(op, R.from_quat(np.array(op["quat"])).as_matrix()), anchor=a, start=st)
         elif f == "mrp":
-            obj.rotate_from_mrp(R.from_quat(np.array(op["quat"])).as_mrp(), anchor=a, start=st)
+            obj.rotate_from_mrp(_as_container(op, R.from_quat(np.array(op["quat"])).as_mrp()), anchor=a, start=st)
         elif f == "quat":
-            obj.rotate_from_quat(np.array(op["quat"]), anchor=a, start=st)
+            obj.rotate_from_quat(_as_container(op, op["quat"]), anchor=a, start=st)
     elif k == "set_position":
         obj.position = np.array(op["value"])
     elif k == "set_orientation":
@@ -374,7 +389,7 @@ def make_grid_case(rng, g):
     P, Q = rng.normal(size=(L, 3)), R.random(L, random_state=int(rng.integers(2**31))).as_quat()
     if form == "move":
         d = rng.normal(size=3) if scalar else rng.normal(size=(n, 3))
-        op = {"op": "move", "disp": d.tolist(), "start": start}
+        op = {"op": "move", "disp": d.tolist(), "start": start, "container": str(rng.choice(["list", "ndarray", "tuple"]))}
     else:
         op = rand_rot_args(rng, form, scalar, n)
         op.update({"op": "rot", "anchor": make_anchor(rng, ak, n, scalar), "anchor_kind": ak, "start": start})
